@@ -413,10 +413,12 @@ Rendered(es) == RenderedT(es, FALSE)
 Trailing(r) ==
     LET hit(i) == /\ r.lines[i] # "" /\ i % 3 = 1
                   \* blanks after a comment are part of the comment: such a line is left as it is
-                  /\ (Len(r.lex[i]) = 0 \/ r.lex[i][Len(r.lex[i])].k # "comment") IN
-    [r EXCEPT !.lines = [i \in 1..Len(r.lines) |-> IF hit(i) THEN r.lines[i] \o "  " ELSE r.lines[i]],
-              !.u16   = [i \in 1..Len(r.lines) |-> IF hit(i) THEN r.u16[i] + 2 ELSE r.u16[i]],
-              !.runes = [i \in 1..Len(r.lines) |-> IF hit(i) THEN r.runes[i] + 2 ELSE r.runes[i]]]
+                  /\ (Len(r.lex[i]) = 0 \/ r.lex[i][Len(r.lex[i])].k # "comment")
+        n(i) == IF i % 6 = 1 THEN 1 ELSE 2            \* one blank or two: a name ends before either
+    IN
+    [r EXCEPT !.lines = [i \in 1..Len(r.lines) |-> IF hit(i) THEN r.lines[i] \o (IF n(i) = 1 THEN " " ELSE "  ") ELSE r.lines[i]],
+              !.u16   = [i \in 1..Len(r.lines) |-> IF hit(i) THEN r.u16[i] + n(i) ELSE r.u16[i]],
+              !.runes = [i \in 1..Len(r.lines) |-> IF hit(i) THEN r.runes[i] + n(i) ELSE r.runes[i]]]
 
 (* ---- helpers for writing choice records ----------------------------------------------------- *)
 D(y, m, d) == [y |-> y, m |-> m, d |-> d, sep |-> "-", pad |-> TRUE]
